@@ -10,6 +10,8 @@ From Spil Require Import Base.Str Base.Dict Base.Outcome Base.PyPath Resolva.Tem
   Search.UnfoldProofs Path.PathProofs Path.UnambiguousDefs Path.UnambiguousProofs Path.TotalDefs Path.TotalProofs
   Search.UnfoldSpec Search.DenoteProofs Search.Finders FS.Fs Search.TreeListDefs Search.TreeListProofs
   Sid.NewlineLemmas Sid.NewlineProofs Sid.NewlineHits Sid.NewlineConf.
+From Spil Require Import Conf.Routing Data.Data Search.AlgebraDefs Data.SidLevelDefs Data.CreateDefs Data.PublishDefs Driver.DispatchFs Search.LastAgreeProofs.
+From Spil Require Search.AlgebraProofs Data.SidLevelProofs Data.CreateProofs Data.PublishProofs.
 From SpilGen Require Hamlet.
 Import ListNotations.
 Local Open Scope string_scope.
@@ -93,6 +95,47 @@ Proof.
   - exact (proj2 (tree_search_glob c Ld Hl Hw Hu cfg E F H qs H0 H1 l H2 s)).
 Qed.
 Print Assumptions C20_all_guarded.
+
+(* searches and the data layer over a data set materialised as a tree: the same statements for ALL configurations (C09 '>' answer of
+   tree and list finder, C10 what a list search returns, C12 exists() is membership, C15 exists() after any history of creations,
+   C18 k successive create(get_new) steps), each under its decidable guards *)
+Theorem C20_all_data : forall c Ld, load c = Some Ld -> wf_loadedb Ld = true -> paths_unambiguousb Ld = true ->
+  (* C09 *)
+  (forall cfg E F, dataset_okb Ld cfg E F = true ->
+     forall s qs idp l l', find_searches Ld s = Ok qs -> last_agree_guardb Ld cfg E qs = true -> existsb has_gt qs = true ->
+     ffind Ld F (FPaths idp cfg) s = Ok l -> find_list Ld (map s_string E) s = Ok l' -> l = l') /\
+  (* C10 *)
+  (unfold_conf_okb Ld = true -> forall items s l, guarded Ld s -> find_list Ld items s = Ok l ->
+     NoDup l /\ (forall e, In e l <-> In e items /\ matched Ld s e)) /\
+  (* C12 *)
+  (forall cfg E F, dataset_ok Ld cfg E F -> forall Rt id x b,
+     exists_guardb Ld Rt id cfg x = true -> sid_exists Ld Rt F x = Ok b -> b = true <-> In x E) /\
+  (* C15 *)
+  (forall Rt cfg id ss x b, dataset_okb Ld (default_cfg Ld cfg) [] fs_root = true -> hist_okb Ld cfg ss = true ->
+     exists_guardb Ld Rt id (default_cfg Ld cfg) x = true ->
+     sid_exists Ld Rt (run_creates Ld Rt cfg fs_root ss) x = Ok b ->
+     b = true <->
+     (exists s z p, In s (created Ld Rt cfg fs_root ss) /\ Sid Ld s = Ok z /\
+        sid_path Ld z (default_cfg Ld cfg) = Ok (Some p) /\ anc_with_path Ld (default_cfg Ld cfg) z x)) /\
+  (* C18 *)
+  (forall Rt id cfg0 x E F n k F' out, version_confb Ld = true -> rt_touch Rt = true ->
+     chain_guardb Ld Rt id (default_cfg Ld cfg0) x = true -> dataset_okb Ld (default_cfg Ld cfg0) E F = true ->
+     fs_invb F = true -> forallb plain_memberb E = true -> chain_topb E x n = true ->
+     creatableb Ld (default_cfg Ld cfg0) x n k = true ->
+     publish_chain Ld Rt F cfg0 x k [] = Ok (F', out) ->
+     let j := Nat.min k (999 - n) in
+     out = (map s_string (published x n j) ++ (if (k <=? 999 - n)%nat then [] else [""]))%list /\
+     (exists E', dataset_ok Ld (default_cfg Ld cfg0) E' F' /\ chain_top E' x (n + j) /\ incl E E' /\
+                 (forall e, In e (published x n j) -> In e E' /\ ~ In e E))).
+Proof.
+  intros c Ld Hl Hw Hu. split; [|split; [|split; [|split]]].
+  - intros cfg E F Hd s qs idp l l'. exact (last_agree_findb c Ld cfg E F Hl Hw Hu Hd s qs idp l l').
+  - intros Hc items s l. exact (AlgebraProofs.find_list_denotes c Ld Hl Hw Hc items s l).
+  - intros cfg E F Hd Rt id x b. exact (SidLevelProofs.sid_exists_specb c Ld Hl Hw Hu cfg E F Hd Rt id x b).
+  - intros Rt cfg id ss x b. exact (CreateProofs.exists_after_history c Ld Hl Hw Hu Rt cfg id ss x b).
+  - intros Rt id cfg0 x E F n k F' out Hv Ht. exact (PublishProofs.publish_chain_b c Ld Rt id cfg0 x E F n k F' out Hl Hw Hu Hv Ht).
+Qed.
+Print Assumptions C20_all_data.
 
 (* the hypotheses are satisfiable: today's configuration (and, at run time, every member of the generated family) *)
 Example C20_instance : load Hamlet.the_conf = Some Hamlet.the_loaded /\ wf_loadedb Hamlet.the_loaded = true.
